@@ -36,8 +36,9 @@ class ReversingPool(multiprocessing.pool.Pool):
     the schedule of the multi-process branch instead of hoping for an unlucky one (the code under test is unmodified;
     it only receives this class as its Pool)"""
 
-    def __init__(self, processes=None):
-        super().__init__(processes, context=multiprocessing.get_context('fork'))
+    def __init__(self, processes=None, *a, **k):
+        k['context'] = multiprocessing.get_context('fork')
+        super().__init__(processes, *a, **k)
         self._k = 0
 
     def apply_async(self, func, args=(), kwds={}, callback=None, error_callback=None):
@@ -74,6 +75,16 @@ class World:
         # one category list / root list object reused by every call, as a real caller does
         self.cats = [Category.parse(c) for c in case['tags']]
         self.roots = [Category.parse(c) for c in case['roots']]
+        if len(set(case['roots'])) < len(case['roots']):
+            # a root named twice: fine today; if the library refuses it, the pool is parsed without the repetition
+            try:
+                native.run_parser(dict(case, config=dict(case['config'], max_step=BIG)), self.grammar,
+                                  sentences=case['sentences'][:1], processes=1, max_chunk_size=20)
+            except runner.OutOfDomain:
+                case['roots'] = list(dict.fromkeys(case['roots']))
+                self.roots = [Category.parse(c) for c in case['roots']]
+            except Exception:
+                pass
         self.alone = {}
         self.pops = {}
 
@@ -100,7 +111,7 @@ class World:
 
 
 def is_ph(snaps):
-    return (snaps is not None and len(snaps) == 1 and snaps[0][0] == ('L', 'NP', {'word': 'FAILED'})
+    return (snaps is not None and len(snaps) == 1 and snaps[0][0][0] == 'L' and snaps[0][0][2].get('word') == 'FAILED'
             and snaps[0][1] == float('-inf'))
 
 
@@ -172,27 +183,29 @@ def check_step(world, step, info=None):
     rt = native.setup()
     del rt.unraisable[:]
     del rt.faults[:]
-    real_pool = depccg.parsing.Pool
+    import contextlib
+    pool_ctx = contextlib.nullcontext()
     if step.get('schedule') == 'reversed':
-        depccg.parsing.Pool = ReversingPool
+        pool_ctx = native.pool_installed(ReversingPool)
     elif step.get('schedule') == 'sync':
-        depccg.parsing.Pool = native.PicklingSyncPool
+        pool_ctx = native.pool_installed(native.PicklingSyncPool)
     try:
-        if single_form:
-            res = depccg.parsing.run(docs[0], scores[0], cats, roots, world.grammar.binary, world.grammar.unary, **cfg)
-        else:
-            res = depccg.parsing.run(docs, scores, cats, roots, world.grammar.binary, world.grammar.unary, **cfg)
+        with pool_ctx:
+            if single_form:
+                res = depccg.parsing.run(docs[0], scores[0], cats, roots, world.grammar.binary, world.grammar.unary, **cfg)
+            else:
+                res = depccg.parsing.run(docs, scores, cats, roots, world.grammar.binary, world.grammar.unary, **cfg)
     except Exception as ex:
-        depccg.parsing.Pool = real_pool
         bad(f'raises/{type(ex).__name__}', f'batch {idxs} (processes={step["processes"]}, '
             f'max_chunk_size={step["max_chunk_size"]}, max_step={max_step}): {type(ex).__name__}: {ex}')
         return fails
-    depccg.parsing.Pool = real_pool
     for f in list(rt.unraisable) + list(rt.faults):
         bad('fault', f'batch {idxs}: {f}')
     if [str(c) for c in cats] != case['tags'] or [str(c) for c in roots] != case['roots']:
         bad('mutates-arguments', f'the caller\'s category / root list was changed by the call (now {len(cats)} categories)')
         del cats[len(case['tags']):]
+    if single_form and isinstance(res, list) and res and not isinstance(res[0], list):
+        res = [res]         # (the one-sentence calling form may hand back that sentence's list itself)
     if not isinstance(res, list) or len(res) != len(idxs):
         bad('result-count', f'batch of {len(idxs)} sentences returned {len(res) if isinstance(res, list) else res!r} result lists')
         return fails
@@ -433,17 +446,14 @@ def check_chunking(n, processes):
     cat = Category.parse('A')
     docs = [[Token.of_word(f'w{k}')] for k in range(n)]
     scores = [ScoringResult(np.zeros((1, 1), dtype=np.float32), np.zeros((1, 2), dtype=np.float32)) for _ in range(n)]
-    real_pool = depccg.parsing.Pool
-    depccg.parsing.Pool = native.PicklingSyncPool
     try:
-        res = depccg.parsing.run(docs, scores, [cat], [cat], _no_rules, _no_rules1, processes=processes,
-                                 max_chunk_size=1, unary_penalty=0.125, beta=0.00001, use_beta=False, pruning_size=5,
-                                 nbest=1, max_step=1000, max_length=250)
+        with native.pool_installed(native.PicklingSyncPool):
+            res = depccg.parsing.run(docs, scores, [cat], [cat], _no_rules, _no_rules1, processes=processes,
+                                     max_chunk_size=1, unary_penalty=0.125, beta=0.00001, use_beta=False, pruning_size=5,
+                                     nbest=1, max_step=1000, max_length=250)
     except Exception as ex:
         return [(f'{PROPERTY}/chunking/raises/{type(ex).__name__}', f'{n} sentences, processes={processes}: '
                  f'{type(ex).__name__}: {ex}')]
-    finally:
-        depccg.parsing.Pool = real_pool
     if not isinstance(res, list) or len(res) != n:
         return [(f'{PROPERTY}/chunking/result-count', f'{n} sentences, processes={processes}: '
                  f'{len(res) if isinstance(res, list) else res!r} result lists')]
